@@ -13,7 +13,7 @@ use serde::{Deserialize, Serialize};
 use crate::{
     core::{Obs, Prop, PropPart, Property, Tier},
     fake_junos::{FakeJunos, Fault, FaultKind, FAULT_KINDS},
-    fullrun::{full_run, RunResult},
+    fullrun::RunResult,
     irr::{Db, FakeIrrd, Op, RsMember},
     junos_model::{Config, PRange, Policy, Term},
     props::c01::{V4_POOL, V6_POOL},
@@ -82,7 +82,7 @@ pub fn stale_config(n: u8) -> Config {
     cfg
 }
 
-pub struct C04;
+pub struct C04(pub crate::fullrun::Runner);
 
 impl C04 {
     fn loads(case: &Case) -> usize {
@@ -93,7 +93,10 @@ impl C04 {
 impl Prop for C04 {
     type Case = Case;
     fn name(&self) -> &'static str {
-        "fault-positions"
+        match self.0 {
+            crate::fullrun::Runner::Hook => "fault-positions",
+            crate::fullrun::Runner::Binary => "fault-positions-binary",
+        }
     }
     fn rule(&self) -> String {
         "the agent's real run (real session, readers, evaluator against a fake IRRd, compare, \
@@ -109,7 +112,10 @@ impl Prop for C04 {
             .into()
     }
     fn cases(&self, tier: Tier) -> u32 {
-        tier.pick(600, 40_000)
+        match self.0 {
+            crate::fullrun::Runner::Hook => tier.pick(600, 40_000),
+            crate::fullrun::Runner::Binary => tier.pick(40, 4_000),
+        }
     }
     fn exhaustive(&self, _tier: Tier) -> bool {
         // positions x kinds for each N are enumerated completely in fixed_cases
@@ -117,6 +123,18 @@ impl Prop for C04 {
     }
     fn fixed_cases(&self) -> Vec<Case> {
         let mut out = Vec::new();
+        if self.0 == crate::fullrun::Runner::Binary {
+            // the unmodified binary over TLS: N = 2 loads (one update, one delete), every
+            // position x every kind
+            let managed = vec![(0b11u16, 0b1u16)];
+            out.push(Case { managed: managed.clone(), stale: 1, fault: None });
+            for at in 0..8 {
+                for kind in FAULT_KINDS {
+                    out.push(Case { managed: managed.clone(), stale: 1, fault: Some(Fault { at, kind }) });
+                }
+            }
+            return out;
+        }
         let contents: [&[(u16, u16)]; 5] = [
             &[],
             &[(0b11, 0b1)],
@@ -186,7 +204,7 @@ impl Prop for C04 {
             f.withhold_until_loads = Some(n);
         }
         let before = fake.lock().unwrap().ephemeral.clone();
-        let result = full_run(&fake, ("127.0.0.1", irrd.port), "bgpfu");
+        let result = crate::fullrun::agent_run(self.0, &fake, ("127.0.0.1", irrd.port), "bgpfu");
         let (log, after, commits) = {
             let f = fake.lock().unwrap();
             (f.log.clone(), f.ephemeral.clone(), f.commits)
@@ -297,6 +315,9 @@ pub fn property() -> Property {
     Property {
         id: "C04",
         level: "fault_enumeration",
-        parts: vec![Box::new(PropPart(C04))],
+        parts: vec![
+            Box::new(PropPart(C04(crate::fullrun::Runner::Hook))),
+            Box::new(PropPart(C04(crate::fullrun::Runner::Binary))),
+        ],
     }
 }
